@@ -488,6 +488,13 @@ def tag(case, f):
             ix = _ix_for(case, k)
             if ix['kind'] == 'auto' and k['t'] in ('auto_oob', 'auto_slice', 'absent', 'list_absent'):
                 return 'auto-index-loc-passthrough'
+    # (a) compound: the absent key was passed through and the other axis is a hierarchical index selected in a
+    # non-tree order, whose construction is (rightly) rejected before any lookup error could surface
+    if f.kind == 'raised:ErrorInitIndex' and 'absent key' in f.detail:
+        for k in keys:
+            ix = _ix_for(case, k)
+            if ix['kind'] == 'auto' and k['t'] in ('auto_oob', 'auto_slice', 'absent', 'list_absent'):
+                return 'auto-index-loc-passthrough'
     # (b) descending label slice with an explicit stop
     if f.kind in ('labels', 'length', 'value', 'shape'):
         for k in keys:
